@@ -134,6 +134,19 @@ def const_table_args(*idx):
     return setup
 
 
+def const_strings(run, st, env, pnames, args, sps):
+    """constant string literals of the unit are terminated strings (C-string model instead of opaque bytes)"""
+    for name, g in run.mod.globals.items():
+        init = g.get('init')
+        if g.get('const') and isinstance(init, list) and init and all(isinstance(x, int) for x in init) \
+                and init[-1] == 0 and 0 not in init[:-1] and g['ty'].get('size') == len(init):
+            oid = 'global:' + name
+            if oid not in st.objs:
+                from absval import Obj
+                st.objs[oid] = Obj(oid, 'global', Lin(len(init)),
+                                   {'g': g, 'cstr_len': Lin(len(init) - 1), 'desc': 'string literal %s' % name})
+
+
 def null_args(*idx):
     def setup(run, st, env, pnames, args, sps):
         for i in idx:
@@ -177,7 +190,7 @@ def ext_memcmp(interp, st, i, args):
     return [(st, st.fresh_int(32, True, 'memcmp'))]
 
 
-def _cstr_read(interp, st, p, i, kind):
+def cstr_read(interp, st, p, i, kind):
     """a string function walks p up to its terminator: p must point into a terminated string"""
     if not isinstance(p, PtrVal):
         interp.unchecked += 1
@@ -234,7 +247,7 @@ def const_string(st, p):
 def ext_strchr(interp, st, i, args):
     """strchr(s, c): NULL exactly when c is neither in s nor NUL (the terminator counts as part of s)"""
     s, c = args[0], args[1]
-    _cstr_read(interp, st, s, i, 'strchr')
+    cstr_read(interp, st, s, i, 'strchr')
     if st.bottom:
         return []
     chars = const_string(st, s)
@@ -292,10 +305,10 @@ def ext_strchr(interp, st, i, args):
 
 
 def ext_strcmp(interp, st, i, args):
-    _cstr_read(interp, st, args[0], i, 'strcmp')
+    cstr_read(interp, st, args[0], i, 'strcmp')
     if st.bottom:
         return []
-    _cstr_read(interp, st, args[1], i, 'strcmp')
+    cstr_read(interp, st, args[1], i, 'strcmp')
     if st.bottom:
         return []
     return [(st, st.fresh_int(32, True, 'strcmp'))]
@@ -303,7 +316,7 @@ def ext_strcmp(interp, st, i, args):
 
 def ext_strlen19(interp, st, i, args):
     from absint import ext_strlen
-    _cstr_read(interp, st, args[0], i, 'strlen')
+    cstr_read(interp, st, args[0], i, 'strlen')
     if st.bottom:
         return []
     return ext_strlen(interp, st, i, args)
